@@ -159,7 +159,33 @@ Definition parse_int (s : str) : option Z :=
       else option_map Z.of_N (digits_val 0 s)
   end.
 
-Inductive lclass := CStr | CInt (z : Z) | CBool (b : bool) | COther.
+(* CNum m e: a numeric literal of value m / 10^e (xsd:integer: e = 0; xsd:decimal: e = number of fraction digits) *)
+Inductive lclass := CStr | CNum (m : Z) (e : N) | CBool (b : bool) | COther.
+
+(* the lexical forms [+-]?digits[.digits] / [+-]?.digits of xsd:decimal with at least one digit (Decimal() accepts more -
+   exponents, underscores, white space, NaN, Infinity: those are outside the fragment); result: coefficient and
+   number of fraction digits, compared exactly as Python compares int and Decimal *)
+Fixpoint dec_scan (dot : bool) (acc e nd : N) (s : str) : option (N * N * N) :=
+  match s with
+  | [] => Some (acc, e, nd)
+  | c :: r =>
+      if is_digit c then dec_scan dot (10 * acc + (c - 48)) (if dot then e + 1 else e) (nd + 1) r
+      else if N.eqb c 46 && negb dot then dec_scan true acc e nd r
+      else None
+  end.
+Definition parse_dec (s : str) : option (Z * N) :=
+  let '(neg, body) := match s with
+                      | c :: r => if N.eqb c 45 then (true, r) else if N.eqb c 43 then (false, r) else (false, s)
+                      | [] => (false, s)
+                      end in
+  match dec_scan false 0 0 0 body with
+  | Some (a, e, nd) => if N.eqb nd 0 then None else Some ((if neg then Z.opp (Z.of_N a) else Z.of_N a), e)
+  | None => None
+  end.
+
+(* m / 10^e against m' / 10^e' , exactly *)
+Definition num_ltb (m : Z) (e : N) (m' : Z) (e' : N) : bool := Z.ltb (m * 10 ^ Z.of_N e') (m' * 10 ^ Z.of_N e).
+Definition num_eqb (m : Z) (e : N) (m' : Z) (e' : N) : bool := Z.eqb (m * 10 ^ Z.of_N e') (m' * 10 ^ Z.of_N e).
 
 (* the lexical space of xsd:boolean: true false 1 0 (anything else is ill-typed: outside the fragment) *)
 Definition parse_bool (s : str) : option bool :=
@@ -176,7 +202,9 @@ Definition lit_class (lex : str) (dt lang : option str) : lclass :=
     | Some d =>
         if str_eqb d xsd_string then CStr
         else if str_eqb d xsd_integer then
-          match parse_int lex with Some z => CInt z | None => COther end
+          match parse_int lex with Some z => CNum z 0 | None => COther end
+        else if str_eqb d xsd_decimal then
+          match parse_dec lex with Some (m, e) => CNum m e | None => COther end
         else if str_eqb d xsd_boolean then
           match parse_bool lex with Some b => CBool b | None => COther end
         else COther
@@ -191,7 +219,7 @@ Definition lang_or_empty (l : option str) : str := match l with Some s => s | No
 Definition lit_gt (lex : str) (dt lang : option str) (lex' : str) (dt' lang' : option str) : option bool :=
   match lit_class lex dt lang, lit_class lex' dt' lang' with
   | COther, _ | _, COther => None
-  | CInt x, CInt y => Some (Z.gtb x y)              (* numeric fast path *)
+  | CNum x e, CNum y e' => Some (num_ltb y e' x e)  (* numeric fast path: int and Decimal values compared exactly *)
   | CBool x, CBool y => Some (x && negb y)          (* same datatype, no tag, both valued: True > False *)
   | _, _ =>
       let d := dt_or_string dt in
@@ -213,7 +241,7 @@ Definition lit_gt (lex : str) (dt lang : option str) (lex' : str) (dt' lang' : o
 Definition lit_eqv (lex : str) (dt lang : option str) (lex' : str) (dt' lang' : option str) : option bool :=
   match lit_class lex dt lang, lit_class lex' dt' lang' with
   | COther, _ | _, COther => None
-  | CInt x, CInt y => Some (Z.eqb x y)
+  | CNum x e, CNum y e' => Some (num_eqb x e y e')
   | CBool x, CBool y => Some (Bool.eqb x y)
   | CStr, CStr =>
       if negb (str_eqb (lower (lang_or_empty lang)) (lower (lang_or_empty lang'))) then Some false
